@@ -46,7 +46,9 @@ def paths(lr, **kw):
 
 
 def pairs(lr):
-    return sorted({(p[0], p[-1]) for p in paths(lr)})
+    """end-to-end (source column, target column) pairs.  A degenerate one-node 'path' (a source-less target column: finding K-onenode, judged by
+    C06) is not a pair and is left out"""
+    return sorted({(p[0], p[-1]) for p in paths(lr) if len(p) >= 2})
 
 
 def exc_name(e):
